@@ -41,6 +41,9 @@ func (c c10Case) String() string {
 
 var c10Patterns = []string{"a", "a/b", "a/*", "a/**", "*", "**", "a*", "?b", "*/b", "**/b", "a/b/", "[a]b", "a/b*", "b", "!a", "!a/b", "!a/b*", "!**/c", "ab"}
 
+// patterns whose tail is more than one wildcard component (used in single-pattern and pair cases)
+var c10TailPatterns = []string{"a/*/**", "*/*", "a/*/*", "!a/*/*", "!a/*/**", "*/*/**"}
+
 func patternLists(maxLen int, pats []string) [][]string {
 	out := [][]string{nil}
 	var rec func(cur []string)
@@ -381,6 +384,16 @@ func runC10(r *evid.Run) {
 		for _, inc := range lists {
 			for _, exc := range lists {
 				cases = append(cases, c10Case{Tree: t, Include: inc, Exclude: exc})
+			}
+		}
+	}
+	// multi-component wildcard tails, alone and combined with every other pattern
+	for _, t := range trees {
+		for _, tp := range c10TailPatterns {
+			cases = append(cases, c10Case{Tree: t, Include: []string{tp}}, c10Case{Tree: t, Exclude: []string{tp}})
+			for _, q := range c10Patterns {
+				cases = append(cases, c10Case{Tree: t, Include: []string{q, tp}}, c10Case{Tree: t, Include: []string{tp, q}},
+					c10Case{Tree: t, Exclude: []string{q, tp}}, c10Case{Tree: t, Exclude: []string{tp, q}}, c10Case{Tree: t, Include: []string{tp}, Exclude: []string{q}})
 			}
 		}
 	}
